@@ -142,6 +142,13 @@ def gen_seq_op(r, driver, cats=None, p_error=0.15, allow_raise=True,
             items.append(["progress"])
         else:
             s = cmds.gen_cmd(r, cats or driver_cats(driver))
+            prev = [it[1] for it in items if it[0] == "cmd"]
+            if prev and prev[-1][2] and prev[-1][0] == 16 and r.random() < 0.4:
+                # a run of application extended commands of one device type (what the library's own
+                # sequences do): every one of them needs its own EnableDeviceType in front
+                s = [16, (r.choice(cmds._ADDR16) << 8) | (prev[-1][1] & 0xFF), prev[-1][2]]
+                if cmds.mk_cmd(s).devicetype != prev[-1][2]:
+                    s = list(prev[-1])
             items.append(["cmd", s])
             add_out(outs, s, gen_outcome(r, cmds.mk_cmd(s), p_error))
     op = {"kind": "seq", "items": items, "outs": outs,
